@@ -100,9 +100,8 @@ pub fn check(rep: &mut CaseReport, events: &[Event], view: &WireView, p: &Params
                     // a FIN is taken only when it is the next expected sequence number
                     if !fin_accepted && idx == contiguous + 1 && !dead {
                         fin_accepted = true;
-                        // nothing beyond the FIN belongs to the stream: the prefix ends here
-                        stored.retain(|x| *x < idx);
-                        stored_len.retain(|x, _| *x < idx);
+                        // nothing beyond the FIN belongs to the stream: the prefix ends here (what
+                        // was parked beyond it earlier stays parked, and is still reported by SACK)
                         stored.insert(idx);
                         stored_len.insert(idx, 0);
                         contiguous = idx;
@@ -215,7 +214,11 @@ pub fn check(rep: &mut CaseReport, events: &[Event], view: &WireView, p: &Params
                 }
                 last_ack = Some(last_ack.map_or(a, |l: i64| l.max(a)));
                 // selective ACK (pure state packets carry it)
-                if pk.ty == wire::ST_STATE {
+                if pk.ty == wire::ST_STATE && fin_accepted {
+                    // every bit now stands for a number beyond the end of the stream: whatever was
+                    // parked there is no data of this connection, either report is honest
+                    rep.counters.inc("c04_sacks_beyond_the_fin_not_judged");
+                } else if pk.ty == wire::ST_STATE {
                     rep.counters.inc("c04_state_packets_checked");
                     let ooo: Vec<i64> = stored.range(a + 2..).copied().collect();
                     let any_ooo = stored.range(a + 1..).next().is_some();
